@@ -10,6 +10,8 @@ CONSTANTS
   SweepAlphabet <- MC_AllSweeps
   DecoAlphabet <- MC_AllDeco
   BigChoices <- MC_BothBig
+  ZeroChoices <- MC_NoZero
+  ZeroToleranceFallsBack = FALSE
   LaggedRecordedAtSetup = FALSE
   Hyp_NoCap = TRUE
 PROPERTY C11_Terminates
